@@ -173,7 +173,7 @@ func (t *tgen) genValue(ty reflect.Type, depth int) reflect.Value {
 		var impl []reflect.Type
 		for i := range togoRoots {
 			pt := reflect.TypeOf(togoRoots[i].mk())
-			if pt.Implements(ty) {
+			if pt.Implements(ty) && !togoRoots[i].fixedOnly {
 				impl = append(impl, pt)
 			}
 		}
@@ -436,8 +436,15 @@ func (t *tgen) fieldsOf(v reflect.Value, st reflect.Type, prefix []int, paths ma
 			if registered && (!flat || t.rint(100) < 30) {
 				t.g.Count("gen embedded-as-nested-record")
 				*pend = append(*pend, pendField{key, fv, true})
-			} else if flat {
-				t.g.Count("gen embedded-flattened")
+			} else {
+				if flat {
+					t.g.Count("gen embedded-flattened")
+				} else {
+					// an unregistered embedded struct with a field no promoted key reaches
+					// (shadowed by a later declaration): that field cannot be written from this
+					// record, so the generating value must not hold anything there
+					t.g.Count("gen embedded-flattened (unreachable fields zeroed)")
+				}
 				t.fieldsOf(fv, f.Type, path, paths, pend)
 			}
 			continue
@@ -446,7 +453,15 @@ func (t *tgen) fieldsOf(v reflect.Value, st reflect.Type, prefix []int, paths ma
 			continue
 		}
 		if p, ok := resolveKey(paths, key); !ok || !samePath(p, path) {
-			continue // shadowed and unreachable from here
+			// shadowed and unreachable from here
+			if !fv.IsZero() {
+				if fv.CanSet() {
+					fv.Set(reflect.Zero(fv.Type()))
+				} else {
+					t.g.Count("gen BUG unreachable non-zero field not settable")
+				}
+			}
+			continue
 		}
 		spell := key
 		if f.Tag.Get("json") == "" && t.rint(100) < 40 {
@@ -486,6 +501,9 @@ func togoGen(g *Gen) {
 	// 1. exhaustive grid: every field of every root type x every value kind sample
 	for ri := range togoRoots {
 		r := &togoRoots[ri]
+		if r.fixedOnly {
+			continue
+		}
 		st := reflect.TypeOf(r.mk()).Elem()
 		paths := map[string][]int{}
 		jsonPaths(st, nil, paths)
@@ -527,7 +545,7 @@ func togoGen(g *Gen) {
 		// string field set (the field tables of two structs can fit each other by accident)
 		for oi := range togoRoots {
 			o := &togoRoots[oi]
-			if o == r {
+			if o == r || o.fixedOnly {
 				continue
 			}
 			g.Emit("%s", togoLine("echo", r, &tnode{tok: "H", tn: o.name, id: 1}, "-"))
@@ -551,15 +569,12 @@ func togoGen(g *Gen) {
 		nConv, nEcho, nBad = 12000, 4000, 6000
 	}
 	for i := 0; i < nConv+nEcho+nBad; i++ {
-		r := &togoRoots[g.Rng.Intn(len(togoRoots))]
-		if g.Rng.Intn(3) == 0 {
-			r = &togoRoots[1] // vnode: the type with every kind
-		}
+		r := pickRoot(g)
 		t := newTgen(g, 1+g.Rng.Intn(3))
 		root := reflect.New(reflect.TypeOf(r.mk()).Elem())
 		t.genStructInto(root.Elem(), 0)
+		term := t.recordOf(root.Elem()) // may zero fields that no key of the record can reach
 		exp := canonGo(root)
-		term := t.recordOf(root.Elem())
 		var toks []string
 		term.emit(&toks)
 		switch {
@@ -640,7 +655,7 @@ func togoGen(g *Gen) {
 				}
 				structs, _ := worldOf(reflect.TypeOf(r.mk()).Elem())
 				for _, s := range structs {
-					if n := togoRegOfStruct[s]; n != "" && n != victim.tn {
+					if n := togoRegOfStruct[s]; n != "" && n != victim.tn && !togoByName[n].fixedOnly {
 						names = append(names, n)
 					}
 				}
@@ -679,6 +694,22 @@ func togoGen(g *Gen) {
 	// 4. the keyed known finding: a time does not come back
 	w := togoByName["weather"]
 	g.Emit("%s", togoLine("echo", w, &tnode{tok: "H", tn: "weather", id: 1, keys: []string{"k116.105.109.101", "k115.105.122.101"}, kids: []*tnode{atom("t1600000000"), atom("i12")}}, "-"))
+}
+
+// a root for the random streams: the types with every kind / the deepest embedding more often
+func pickRoot(g *Gen) *togoRoot {
+	switch g.Rng.Intn(6) {
+	case 0:
+		return togoByName["vnode"]
+	case 1:
+		return togoByName[[]string{"vd0", "vwide", "vd0", "vd2"}[g.Rng.Intn(4)]]
+	}
+	for {
+		r := &togoRoots[g.Rng.Intn(len(togoRoots))]
+		if !r.fixedOnly {
+			return r
+		}
+	}
 }
 
 func hasNonZeroTime(v reflect.Value) bool {
